@@ -169,7 +169,7 @@ fn gen_item(rng: &mut Rng, terms: &[&str], nrules: usize, depth: usize) -> It {
         0 => It::Opt(inner),
         1 => It::Star(inner),
         2 => It::Plus(inner),
-        _ => { let m = rng.below(3); It::Rep(inner, m, (m + rng.below(3)).max(1)) } // `{0,0}` is not Lark syntax
+        _ => { let m = rng.below(3); let n = if rng.chance(1, 3) { (2 * m).max(1) } else { (m + rng.below(3)).max(1) }; It::Rep(inner, m, n) } // `{0,0}` is not Lark syntax
     }
 }
 
@@ -205,6 +205,14 @@ fn corpus() -> Vec<(&'static str, String, Vec<(usize, Vec<PS>)>, Vec<u8>)> {
         ("right-rec", "start: l\nl: \"a\" l | \"b\"\n".into(), vec![(0, vec![t(b'a'), n(0)]), (0, vec![t(b'b')])], b"ab".to_vec()),
         ("palindrome", "start: p\np: \"a\" p \"a\" | \"b\" p \"b\" | \"a\" | \"b\" | \"\"\n".into(),
             vec![(0, vec![t(b'a'), n(0), t(b'a')]), (0, vec![t(b'b'), n(0), t(b'b')]), (0, vec![t(b'a')]), (0, vec![t(b'b')]), (0, vec![])], b"ab".to_vec()),
+        ("rep-1-2", "start: x{1,2} \"c\"\nx: \"a\" | \"b\"\n".into(),
+            vec![(0, vec![n(1), t(b'c')]), (0, vec![n(1), n(1), t(b'c')]), (1, vec![t(b'a')]), (1, vec![t(b'b')])], b"abc".to_vec()),
+        ("rep-2-4-then-0-2", "start: x{2,4} \"c\" x{0,2} \"c\"\nx: \"a\" | \"b\"\n".into(),
+            vec![(0, vec![n(2), t(b'c'), n(3), t(b'c')]), (2, vec![n(1), n(1)]), (2, vec![n(1), n(1), n(1)]), (2, vec![n(1), n(1), n(1), n(1)]),
+                 (3, vec![]), (3, vec![n(1)]), (3, vec![n(1), n(1)]), (1, vec![t(b'a')]), (1, vec![t(b'b')])], b"abc".to_vec()),
+        ("rep-exact-then-atmost", "start: y z\ny: \"a\"{2} \"b\"\nz: \"a\"{0,2} \"c\" | \"a\"{1,3}\n".into(),
+            vec![(0, vec![n(1), n(2)]), (1, vec![t(b'a'), t(b'a'), t(b'b')]), (2, vec![t(b'c')]), (2, vec![t(b'a'), t(b'c')]), (2, vec![t(b'a'), t(b'a'), t(b'c')]),
+                 (2, vec![t(b'a')]), (2, vec![t(b'a'), t(b'a')]), (2, vec![t(b'a'), t(b'a'), t(b'a')])], b"abc".to_vec()),
         ("hidden-left", "start: s\ns: n s \"a\" | \"b\"\nn: \"\" | \"c\"\n".into(), vec![(0, vec![n(1), n(0), t(b'a')]), (0, vec![t(b'b')]), (1, vec![]), (1, vec![t(b'c')])], b"abc".to_vec()),
     ]
 }
